@@ -40,6 +40,9 @@ structure Cfg where
   dropPanicAt : Option Nat := none
   /-- the arena serves the (re)allocation requests of this call -/
   allocOk : Bool := true
+  /-- environment policy of the run: the allocator behind the arena refuses blocks above
+  this many bytes (the harness allocator: 32 MiB), so such a request fails in the arena -/
+  allocLimit : Nat := 2 ^ 25
   deriving Repr
 
 /-- Effects threaded through every step. -/
@@ -69,11 +72,10 @@ def padTo (n : Nat) (s : List (Option Elem)) : List (Option Elem) :=
 
 /-- Slots `[0, n)` must be inside the buffer.  A zero-sized element type has no buffer: every
 index is addressable (the slot list grows on demand, a fiction that keeps identities);
-otherwise touching a slot beyond the buffer is UB. -/
+otherwise touching a slot beyond the buffer is UB (flagged; the padding keeps the functions
+total and uniform). -/
 def VS.need (c : Cfg) (v : VS) (n : Nat) (w : W) (what : String) : VS × W :=
-  if n ≤ v.slots.length then (v, w)
-  else if c.esz = 0 then ({ v with slots := padTo n v.slots }, w)
-  else (v, w.flag what)
+  ({ v with slots := padTo n v.slots }, if n ≤ v.slots.length ∨ c.esz = 0 then w else w.flag what)
 
 /-- `ptr::read(p.add(i))` — `none` when the slot is uninitialised / outside -/
 def VS.read (v : VS) (i : Nat) : Option Elem := (v.slots[i]?).join
@@ -163,8 +165,8 @@ def reserveInternal (c : Cfg) (v : VS) (used extra : Nat) (exact : Bool) : Excep
   | some newCap =>
     match checkedMul c.esz newCap with
     | none => .error .capOverflow
-    | some _ =>
-      if !c.allocOk then .error .allocErr
+    | some bytes =>
+      if !c.allocOk || decide (bytes > c.allocLimit) then .error .allocErr
       else .ok { v with cap := newCap, slots := resizeSlots v.slots newCap }
 
 /-- `(in)fallible_reserve_internal`: the inlined capacity test, then `reserve_internal` -/
@@ -184,7 +186,7 @@ def withCapacity (c : Cfg) (n : Nat) : Option VS :=
   | some bytes =>
     if bytes = 0 then some ⟨[], 0, n⟩
     else if !validLayout bytes c.eal then none
-    else if !c.allocOk then none
+    else if !c.allocOk || decide (bytes > c.allocLimit) then none
     else some ⟨List.replicate n none, 0, n⟩
 
 /-- `Vec::shrink_to_fit` + `RawVec::shrink_to_fit(len)`; `none` = panic -/
